@@ -538,6 +538,10 @@ func readMessage(tr *tokenReader) (Message, error) {
 			if err != nil {
 				return msg, readError(tr.nextToken, err.Error())
 			}
+			if fdInteger == 0 {
+				// 0 ends a message on the wire, a field could never be read back
+				return msg, readError(tr.nextToken, "message field index must be at least 1")
+			}
 			if _, ok := msg.Fields[uint8(fdInteger)]; ok {
 				return msg, readError(tr.nextToken, "message has duplicate field index %d", fdInteger)
 			}
